@@ -14,7 +14,10 @@ def modelled : List String := [
   "keccak256.Hash",
   "babyjub.<decls>@babyjub.go",
   "babyjub.<decls>@eddsa.go",
-  "babyjub.<decls>@helpers.go"
+  "babyjub.<decls>@helpers.go",
+  "module.<deps>@go.mod",
+  "module.<deps>@go.sum",
+  "module.<deps>@vendor"
 ]
 
 theorem source_pinned : modelled.all (same I3.Gen.fingerprints) = true := by decide +kernel
@@ -22,6 +25,6 @@ theorem source_pinned : modelled.all (same I3.Gen.fingerprints) = true := by dec
 theorem function_set_pinned : (["babyjub.", "keccak256."] : List String).all (sameKeys I3.Gen.fingerprints) = true := by
   decide +kernel
 
-theorem modelled_nonempty : 6 = modelled.length := by decide
+theorem modelled_nonempty : 9 = modelled.length := by decide
 
 end I3.Props.C20
